@@ -77,6 +77,16 @@ def specJson : String :=
       ++ ",\"fields\":[" ++ ",".intercalate fields ++ "]}"
   "{\"formats\":[" ++ ",\n".intercalate (Spec.all.map fmt) ++ "]}"
 
+/-- shared views as indices into each format's field list -/
+def viewsJson : String :=
+  let one (v : SharedView) : String :=
+    let pairs := (viewPairs v).filterMap (fun p => p.bind (fun (fa, fb) =>
+      match v.a.fields.idxOf? fa, v.b.fields.idxOf? fb with
+      | some i, some j => some s!"[{i},{j}]"
+      | _, _ => none))
+    "{\"a\":" ++ jsonStr v.a.name ++ ",\"b\":" ++ jsonStr v.b.name ++ ",\"pairs\":[" ++ ",".intercalate pairs ++ "]}"
+  "{\"views\":[" ++ ",".intercalate (sharedViews.map one) ++ "]}"
+
 def nat? (s : String) : Option Nat := s.toNat?
 
 /-- Interpret one operation line. Returns the new state and the output line ("" = none). -/
@@ -90,6 +100,19 @@ def step (st : State) (line : String) : State × String :=
     match st.get id with
     | some a => (st, "d " ++ toHex a)
     | none => (st, "bad-op")
+  -- NULL PDU through a named accessor
+  | ["get", "NULL", _, fmt, idx, path] =>
+    match findFormat fmt, nat? idx with
+    | some s, some idx =>
+      if idx < s.fields.length then (st, if path == "l" || path == "a" then "err -22" else "v 0") else (st, "bad-op")
+    | _, _ => (st, "bad-op")
+  | ["set", "NULL", _, fmt, idx, path, _] =>
+    match findFormat fmt, nat? idx with
+    | some s, some idx =>
+      if idx < s.fields.length then (st, if path == "l" || path == "a" then "err -22" else "") else (st, "bad-op")
+    | _, _ => (st, "bad-op")
+  | ["init", "NULL", _, _, path] => (st, if path == "l" then "r -22" else "r 0")
+  | ["init", "NULL", _, _, path, _] => (st, if path == "l" then "r -22" else "r 0")
   -- reference read of Spec field `idx` of format `fmt` at byte offset `off` of buffer `id`
   | ["get", id, off, fmt, idx, _path] =>
     match st.get id, nat? off, findFormat fmt, nat? idx with
@@ -138,6 +161,24 @@ def step (st : State) (line : String) : State × String :=
     | some a, some off, some s, some w, some v =>
       (st.put id (arrOf (specSet (memOf a) off s w (v % 2 ^ w)) a.size), "")
     | _, _, _, _, _ => (st, "bad-op")
+  -- identifiers outside the enumeration / NULL pointers through the by-identifier entry
+  -- points: the Spec's answer is "rejected, nothing written" (only such lines are generated)
+  | ["getid", id, _, fmt, fid, path, nullOut] =>
+    match findFormat fmt, nat? fid with
+    | some s, some fid =>
+      if id == "NULL" || s.fields.length ≤ fid || nullOut == "1" then
+        let sentinel := match s.legacy with
+          | some l => 11936128518282651045 % 2 ^ l.valBits
+          | none => 11936128518282651045
+        (st, if path == "l" then s!"r -22 v {sentinel}" else "r 0 v 0")
+      else (st, "bad-op")
+    | _, _ => (st, "bad-op")
+  | ["setid", id, _, fmt, fid, path, _] =>
+    match findFormat fmt, nat? fid with
+    | some s, some fid =>
+      if id == "NULL" || s.fields.length ≤ fid then (st, if path == "l" then "r -22" else "r 0")
+      else (st, "bad-op")
+    | _, _ => (st, "bad-op")
   | ["facts", fmt] =>
     match findFormat fmt with
     | some s => (st, s!"f {s.headerLen} {s.headerLen} {s.headerLen}")
